@@ -82,9 +82,14 @@ C11(pre, e, post, line) ==
                       [acct |-> an, start_at |-> i, end_index |-> idx, len |-> n])
                /\ Chk("C11", "refused_for_disabled_frozen_or_in_receivership", line,
                       ~Bit(a.flags, ACC_DISABLED) /\ ~Bit(a.flags, ACC_FROZEN) /\ ~Bit(a.flags, ACC_RECEIVERSHIP), [acct |-> an])
+               \* the bracket is open from the start to the first end instruction of the same account after it (the named
+               \* end, or an earlier one: ending early only shortens the window in which checks are skipped)
                /\ (idx > i /\ idx <= n) =>
+                    LET ends == {k \in (i + 1)..idx : L[k].op = "end_fl" /\ L[k].acct = an}
+                        close == IF ends = {} THEN idx ELSE CHOOSE k \in ends : \A k2 \in ends : k <= k2
+                    IN
                     Chk("C11", "no_nesting_liquidation_or_bankruptcy_inside_bracket", line,
-                        \A k \in (i + 1)..(idx - 1) :
+                        \A k \in (i + 1)..(close - 1) :
                            /\ ~(L[k].op = "start_fl" /\ L[k].acct = an)
                            /\ ~(L[k].op = "liquidate" /\ L[k].liquidatee = an)
                            /\ ~(L[k].op \in {"bankruptcy", "start_liq", "start_delev", "transfer_account", "close_account"} /\ L[k].acct = an),
